@@ -42,6 +42,41 @@ EXPECTED_METRICS = {
 }
 
 
+def _eval_cond(c: Any, A: bool, B: bool) -> Any:
+    """Evaluate a condition term over the two atoms isinstance(out, Tensor) (A) and
+    out.is_floating_point() (B); None if it mentions anything else."""
+    import sympy as _sp
+
+    if isinstance(c, bool):
+        return c
+    if isinstance(c, T):
+        if c.op == "not":
+            v = _eval_cond(c.args[0], A, B)
+            return None if v is None else (not v)
+        if c.op in ("and", "or"):
+            vs = [_eval_cond(x, A, B) for x in c.args]
+            if any(v is None for v in vs):
+                return None
+            return all(vs) if c.op == "and" else any(vs)
+        if c.op == "isinstance":
+            return A if "Tensor" in fmt(c) else None
+        if c.op == "truth":
+            return B if "is_floating_point" in fmt(c) else None
+        if "is_floating_point" in fmt(c) and c.op in ("method", "callv"):
+            return B
+    return None
+
+
+def _leaf_for(v: Any, A: bool, B: bool) -> Any:
+    """Select the leaf of a gated value under an assignment of the two atoms."""
+    while isinstance(v, Gamma):
+        t = _eval_cond(v.cond, A, B)
+        if t is None:
+            return ("?", fmt(v.cond))
+        v = v.a if t else v.b
+    return v
+
+
 def check(report: Report, repo: Repo) -> None:
     report.rule_text = (
         "R1: forward of ScaleTrackingAutogradFunction / ScaleTracker returns its tensor argument itself or its clone;"
@@ -147,42 +182,51 @@ def check(report: Report, repo: Repo) -> None:
             continue
         sup = [e for e in it2.events if e.kind == "super" and e["method"] == "run_node"]
         ag = [e for e in it2.events if e.kind == "autograd"]
-        if len(sup) != 1 or not isinstance(r, Gamma):
-            report.add("R2-producer", cons, False, "run_node must compute the node once via super().run_node(n) and return it, wrapped only under the float-tensor predicate", fmt(r), "gamma(is_float_tensor(out) ? tracker.apply(out, ...) : out)")
-            continue
         out_t = T("super", ("run_node", (n.term,), ()))
-        cond_s = fmt(r.cond)
-        okc = "isinstance" in cond_s and "is_floating_point" in cond_s and fmt(out_t) in cond_s and "not" not in cond_s
-        report.add("R2-producer", f"{cons}::predicate", okc, "instrumentation is guarded by isinstance(out, Tensor) and out.is_floating_point() of the produced value", cond_s, "isinstance(out, Tensor) and out.is_floating_point()")
-        ta = TM.term_of(r.a)
-        oka = len(ag) == 1 and ag[0]["cls"].qualname == tracker and isinstance(ta, T) and ta == ag[0]["result"].term and TM.term_of(ag[0]["args"][0]) == out_t
-        report.add("R2-producer", f"{cons}::wrap", oka, f"float tensors: the returned value is {tracker}.apply(<produced value>, ...) so every consumer reads the wrapped tensor", fmt(ta), f"{tracker}.apply(out, ...)")
-        report.add("R2-producer", f"{cons}::non-float", TM.term_of(r.b) == out_t, "non-float values are returned untouched", fmt(r.b), fmt(out_t))
+        if len(sup) != 1:
+            report.add("R2-producer", cons, False, "run_node must compute the node exactly once via super().run_node(n)", len(sup), 1)
+            continue
+        # decide the returned value for each truth assignment of the two predicate atoms
+        table = {}
+        for A_ in (True, False):
+            for B_ in (True, False):
+                leaf = _leaf_for(r, A_, B_)
+                table[(A_, B_)] = TM.term_of(leaf) if not (isinstance(leaf, tuple) and leaf and leaf[0] == "?") else leaf
+        wrap_ok = len(ag) >= 1 and all(e["cls"].qualname == tracker and TM.term_of(e["args"][0]) == out_t for e in ag)
+        wrap_terms = [e["result"].term for e in ag]
+        okc = all(not (isinstance(v, tuple) and v and v[0] == "?") for v in table.values())
+        report.add("R2-producer", f"{cons}::predicate", okc and table[(True, True)] in wrap_terms and all(table[k] == out_t for k in table if k != (True, True)), "the produced value is wrapped iff isinstance(out, Tensor) and out.is_floating_point(); every other value is returned untouched", {str(k): fmt(v) for k, v in table.items()}, "wrap iff (Tensor, float)")
+        report.add("R2-producer", f"{cons}::wrap", wrap_ok, f"float tensors: the returned value is {tracker}.apply(<produced value>, ...) so every consumer reads the wrapped tensor", [fmt(e["args"][0]) for e in ag], f"{tracker}.apply(out, ...)")
+        report.add("R2-producer", f"{cons}::non-float", table[(False, False)] == out_t and table[(True, False)] == out_t, "non-float values are returned untouched", fmt(table[(True, False)]), fmt(out_t))
         if rel == TS:
-            okm = len(ag) == 1 and len(ag[0]["args"]) == 2 and ag[0]["args"][1] is n.attrs["meta"]
+            okm = len(ag) >= 1 and all(len(e["args"]) == 2 and e["args"][1] is n.attrs["meta"] for e in ag)
             report.add("R2-producer", f"{cons}::meta", okm, "metrics are written into the producing node's own meta dict", fmt(ag[0]["args"][1]) if ag else "-", "n.meta", nontrivial=False)
 
-    # ---------------- R4 requires-grad shim
-    it4 = Interp(repo)
-    f = it4.get_global(TS, "_make_input_tensors_require_grad")
-    module = Obj("torch.nn.Module", attrs={"forward": O("old_forward")}, term=T("param", ("module",)))
-    cons = f"{TS}::_make_input_tensors_require_grad"
+    # ---------------- R4 requires-grad shim (found through track_scales: the wrapper it installs as forward)
+    it4 = Interp(repo, opaque=lambda f: isinstance(f, FuncV) and f.qualname == "apply_transform")
+    cons = f"{TS}::track_scales::forward-shim"
     try:
-        it4.call_function(f, [module], {})
-        nf = module.attrs.get("forward")
-        if not isinstance(nf, FuncV):
-            report.add("R4-shim", cons, False, "module.forward must be replaced by a wrapper function", fmt(nf), "wrapper")
+        ts = it4.get_global(TS, "track_scales")
+        it4.events = []
+        mod = Obj("torch.nn.Module", term=T("param", ("module",)))
+        it4.call_function(ts, [mod], {})
+        shims = [e["value"] for e in it4.events if e.kind == "setattr" and e["attr"] == "forward" and isinstance(e["value"], FuncV)]
+        if len(shims) != 1:
+            report.add("R4-shim", cons, False, "track_scales must install exactly one forward wrapper (inputs need requires_grad for backward metrics)", len(shims), 1)
         else:
+            nf = shims[0]
+            old_fwd = nf.env.lookup("old_forward")[1] if nf.env is not None else None
             x, i = P("x", None), O("idx")
             it4.events = []
             r = it4.call_function(nf, [x, i], {"k": P("y", None)})
             ops = [e for e in it4.events if e.kind == "inplace"] + [e for e in it4.events if e.kind == "method" and e["name"] not in ("is_floating_point",)]
             names = sorted({(e.get("op") or e.get("name")) for e in ops})
-            report.add("R4-shim", f"{cons}::effects", names in (["requires_grad_"], []) or names == ["requires_grad_"], "the only operation applied to the arguments is requires_grad_()", names, ["requires_grad_"])
-            guarded = all(any("is_floating_point" in fmt(c) for c, pol in e.guard if pol) for e in ops)
+            report.add("R4-shim", f"{cons}::effects", names in (["requires_grad_"], []), "the only operation applied to the arguments is requires_grad_()", names, ["requires_grad_"])
+            guarded = all(any("is_floating_point" in fmt(c) for c, pol in e.guard if pol) or "is_floating_point" in TM.guard_str(e.guard) for e in ops)
             report.add("R4-shim", f"{cons}::guard", guarded, "requires_grad_() only under the float-tensor predicate", [TM.guard_str(e.guard) for e in ops], "is_float_tensor(a)")
-            exp = T("callv", (T("param", ("old_forward",)), (x.term, i.term), (("k", T("param", ("y",))),)))
-            report.add("R4-shim", f"{cons}::delegate", TM.term_of(r) == exp, "delegates to the original forward with unchanged arguments", fmt(r), fmt(exp))
+            rt = TM.term_of(r)
+            okd = isinstance(rt, T) and rt.op == "callv" and rt.args[1] == (x.term, i.term) and dict(rt.args[2]) == {"k": T("param", ("y",))}
+            report.add("R4-shim", f"{cons}::delegate", okd, "delegates to the original forward with unchanged arguments", fmt(r), "old_forward(x, idx, k=y)")
     except Unsupported as ex:
         report.add("R4-shim", cons, None, f"outside fragment: {ex}")
     report.floor("obligations", len(report.obls), 25)
